@@ -1,4 +1,6 @@
 mod c20;
+mod fakeagg;
+mod world;
 
 fn main() {
     let args = vcore::parse_args();
